@@ -81,6 +81,11 @@ def gen_spec(rng, *, max_objects=60, tier="quick") -> dict:
     """Draw an inventory spec."""
     version = 1 if rng.random() < 0.22 else 2
     n = rng.choice([0, 1, 2, 3, 5, 8, 13, 21, 34, max_objects]) if rng.random() < 0.8 else rng.randint(0, max_objects)
+    big = rng.random()
+    if (tier == "thorough" and big < 0.06) or big < 0.008:
+        # large tables: the compressed body (level 0 = stored) or the v1 text exceeds several _BUFSIZE reads, so
+        # the default 16 KiB schedule is itself multi-chunk
+        n = rng.choice([450, 900, 2000] if tier == "thorough" else [450])
     project = rng.choice(["proj", "My Project", "Ünï Proj", "", "p"])
     if rng.random() < 0.12:
         project = "long " + "n" * rng.choice([900, 1100, 2500, 4000])  # header line longer than ~1000 bytes
